@@ -323,12 +323,17 @@ package hackpadfs
 //@ spec raList(w int, fs FS, p string) := retW("hackpadfs.ReadDir", 0, raW1(w, fs, p), fs, p)
 //@ spec raW2(w int, fs FS, p string) := worldAfterW("hackpadfs.ReadDir", raW1(w, fs, p), fs, p)
 
+//@ spec raChildErr(w2 int, fs FS, p string, e DirEntry) := retW("hackpadfs.removeAll", 0, w2, fs, pathJoin(p, retW("hackpadfs.(DirEntry).Name", 0, w2, e)))
+
 //@ func removeAll(fs FS, path string) (err error)
 //@   props C08 C05
+//@   deterministic
 //@   requires fs != nil
 //@   modifies world()
 //@   loop 1 invariant "any" fs != nil && rangeindex >= -1 && rangeindex < max(len(dir), 1) && (len(dir) > 0 || rangeindex == -1) &&
 //@                      (len(dir) > 0 || world() == old(raW2(world(), fs, path))) && dir == old(raList(world(), fs, path))
+//@   loop 1 invariant "first" implies(rangeindex == -1, world() == old(raW2(world(), fs, path)))
+//@   loop 1 invariant "first-ok" implies(rangeindex >= 0, raChildErr(old(raW2(world(), fs, path)), fs, path, dir[0]) == nil)
 //@   loop 1 modifies world()
 //@   ensures "missing" implies(old(raStatErr(world(), fs, path)) != nil && errIs(old(raStatErr(world(), fs, path)), ErrNotExist), err == nil)
 //@   ensures "stat-error" implies(old(raStatErr(world(), fs, path)) != nil && !errIs(old(raStatErr(world(), fs, path)), ErrNotExist), err == old(raStatErr(world(), fs, path)))
@@ -337,6 +342,8 @@ package hackpadfs
 //@   ensures "list-error" implies(old(raStatErr(world(), fs, path)) == nil && old(raIsDir(world(), fs, path)) && old(raListErr(world(), fs, path)) != nil, isPathError(err) && pathOf(err) == path)
 //@   ensures "empty-dir" [C08] implies(old(raStatErr(world(), fs, path)) == nil && old(raIsDir(world(), fs, path)) && old(raListErr(world(), fs, path)) == nil && len(old(raList(world(), fs, path))) == 0 &&
 //@                     old(retW("hackpadfs.Remove", 0, raW2(world(), fs, path), fs, path)) != nil && !errIs(old(retW("hackpadfs.Remove", 0, raW2(world(), fs, path), fs, path)), ErrNotExist), err != nil)
+//@   ensures "first-child-error" [C08] implies(old(raStatErr(world(), fs, path)) == nil && old(raIsDir(world(), fs, path)) && old(raListErr(world(), fs, path)) == nil && len(old(raList(world(), fs, path))) > 0 &&
+//@                     raChildErr(old(raW2(world(), fs, path)), fs, path, old(raList(world(), fs, path))[0]) != nil, err != nil)
 //@   nopanic
 
 //@ func RemoveAll(fs FS, path string) (err error)
